@@ -15,6 +15,12 @@ CHECKS = {
  'C08': dict(text='cbmc bounds/pointer/division-by-zero/shift instrumentation over the translated real code of the units the other checks use (node iterators on real profile grids, single and multiple direction routers on symbolic elevation fields, worker-pool partition arithmetic, eroder setters), inside those harnesses\' bounds; '
                   'every reported failure is confirmed by replaying the counter-example against the real code under ASan+UBSan before it counts.',
              note=NOTE + '; not decided: use-after-scope through references to temporaries, uninitialised reads, signed overflow, data races, and all units the encoder could not reach (sink resolvers, basin graph, diffusion, mesh, snapshots)', technique=TECH),
+ 'C03': dict(text='On 6 concrete graph structures (chains, trees, two outlets, DAGs with 2 and 3 receivers per node) with symbolic finite binary64 source, cell areas and partition weights: each of the four accumulate overloads returns, bit for bit, acc_i = area_i*src_i + sum over donors acc_d*w(d->i) evaluated along the top-down sweep; scalar source == uniform array; stale output content does not leak. '
+                  'Conservation and the lower bound are exact-arithmetic consequences and are not decided in binary64.',
+             note=NOTE + '; graph structure concrete per query; decided by cvc5 (identical binary64 terms are shared, so the equality is structural)', technique=TECH),
+ 'C16': dict(text='Copy step only: for symbolic contents of every table of a source graph implementation (N<=4 quick, <=6 thorough; single and multiple direction), flow_snapshot::_save makes the snapshot graph expose the same receivers, counts, distances, weights, all donor columns, depth-first and breadth-first orders and levels, mask and base levels; the elevation snapshot equals the elevation. '
+                  'Refusal of mutating calls on snapshot graphs and sequencing of snapshots inside update_routes are not decided.',
+             note=NOTE, technique=TECH),
  'C17': dict(text='Part: on real profile grids every border-status combination (4x4, incl. rejection of asymmetric looped borders through the throw model), every status filter and both directions: '
                   'nodes_indices yields exactly the matching indices in increasing / decreasing order. All inputs are concrete per query (exhaustive enumeration of a finite space through the encoder). '
                   'Raster corner precedence, override maps, the mesh and the default base levels are NOT covered (symbolic-status raster construction: no verdict in 5 min).',
@@ -26,7 +32,6 @@ CHECKS = {
 NOT_APPLICABLE = {
  'C01': 'sink resolvers (priority-flood with std::priority_queue, MST resolver with basin graph) have heap shape and control flow that depend on the symbolic elevations; the IR->C->cbmc encoding of the STL/xtensor code explodes already for the DFS/BFS sub-steps at N=3 (5M variables, >10 min); no verdict reachable, see DESIGN.md 5',
  'C02': 'same units as C01 (pflood / MST resolvers): no encoding within reach, see DESIGN.md 5',
- 'C03': 'accumulate is floating-point accumulation along a data-dependent traversal; binary64 equivalence queries of this kind (C05 weights, C13 linear step) gave no verdict (cvc5/SAT, 15 min) and the reduced-precision route is unsupported by the installed solvers (cvc5: only binary32/64), see DESIGN.md 3.3',
  'C06': 'compute_dfs/bfs from a symbolic receiver table: harness and unit exist (harness/c06.c) but the smallest bound N=3 needs >10 min and fails an unwinding assertion that could not be triaged in time; not claimed, see DESIGN.md 5',
  'C07': 'not built in this round: the accessors return dynamically sized containers whose size depends on the symbolic node index; only the fixed-size impl layer would be encodable, see DESIGN.md 5',
  'C09': 'needs two complete update_routes histories with sink resolvers on one object; the composed unit is out of reach of the encoder (see C01), see DESIGN.md 5',
@@ -34,7 +39,6 @@ NOT_APPLICABLE = {
  'C12': 'sign / no-reversal clauses are inequalities over chains of binary64 multiplications and divisions: no verdict (cvc5/SAT 200-500 s on a 3-node chain); the rejection clause is decided inside the C13 check',
  'C14': 'floating-point linear algebra (tridiagonal solves): not encodable within reach, as anticipated in the design; no check',
  'C15': 'basin graph / Kruskal / Boruvka sort and union symbolic weights: data-dependent std::sort and vectors; out of reach of the encoder (see C01)',
- 'C16': 'snapshots need operator sequences with std::map<std::string,...> and complete graph copies; out of reach of the encoder in this round',
  'C18': 'trimesh construction hashes symbolic vertex pairs into std::unordered_map; heap shape depends on symbolic data; out of reach',
  'C19': 'compute_basins / pits from a symbolic state: harness exists (harness/c19.c) but N=3 gives no verdict in 150 s (conditional push_back and unordered_set lookups with symbolic keys); not claimed',
  'C20': 'operator sequences dispatch virtually over std::vector<std::shared_ptr<...>> and build std::string keys; beyond the translator/stub set in this round',
